@@ -116,10 +116,10 @@ int main(int argc, char** argv) {
           if (std::min(e1, e2) > tol * ksc) fail("articulated_shift_agrees_with_rigid_shift", fmt("e(+s)=%g e(-s)=%g", e1, e2));
           // P8 the same identities through the InverseTransform_ / InverseRotation_ overloads (separately written code paths):
           //    Y := ~X as a Transform, so that ~Y is an InverseTransform_ denoting the same transform as X
-          { Transform Y(~X); const InverseTransform& Xi = ~Y; Rotation Rt(~R); const InverseRotation& Ri = ~Rt;
+          { Transform Y(~X); const InverseTransform_<Real>& Xi = ~Y; Rotation Rt(~R); const InverseRotation_<Real>& Ri = ~Rt;
             double tsc = scaleOf(G.asSymMat33()) + p.normSqr() + X.p().normSqr() + 1;
             std::string in = S(G.asSymMat33()) + fmt(" m=%.17g p=", mass) + V(p) + " X.p=" + V(X.p()) + fmt(" X.R=[%.17g %.17g %.17g; %.17g %.17g %.17g; %.17g %.17g %.17g]",
-                             R(0,0),R(0,1),R(0,2),R(1,0),R(1,1),R(1,2),R(2,0),R(2,1),R(2,2));
+                             R[0][0],R[0][1],R[0][2],R[1][0],R[1][1],R[1][2],R[2][0],R[2][1],R[2][2]);
             SpatialInertia Mi = M.transform(Xi); ++evals;               // spatial-inertia route (inverse overload) vs mass-properties route
             double ei = std::max(diff(Mi.getUnitInertia().asSymMat33(), B2.getUnitInertia().asSymMat33()), (Mi.getMassCenter() - B2.getMassCenter()).norm());
             if (ei > tol * tsc) fail("inverse_transform_agrees_with_massprops", fmt("err=%g ", ei) + in);
